@@ -164,9 +164,22 @@ def check(ctx):
                 stat_tot[k] = stat_tot.get(k, 0) + v
     samples = [dict(cfg={k: v for k, v in r['cfg'].items()}, stats=r['stats'].get(prop, {}),
                     machine=r['machine'].get('stats', {})) for r in (nt[:2] + runs[:1])]
+    comp_extra = {}
+    if prop == 'C03':
+        from comp import Comp
+        from props import c03_components
+        C = Comp(ctx, '')
+        drv = common.Driver()
+        try:
+            c03_components.run(C, drv)
+        finally:
+            drv.close()
+        issues += C.issues
+        comp_extra = dict(component_cases=C.cases, component_nontrivial=len(C.nontrivial), component_distribution=C.dist)
     cov = dict(evaluations=len(runs), distinct_nontrivial=distinct, rule=RULES[prop], samples=samples,
                traces_validated_against_impl=sum(1 for r in runs if r['machine'].get('stats', {}).get('events', 0) > 0),
                input_distribution=dist, oracle_totals=stat_tot, pass_wall_s=round(res['wall'], 1), exhaustive=False)
+    cov.update(comp_extra)
     return dict(issues=issues, coverage=cov, assumptions=ASSUME[prop])
 
 
